@@ -22,6 +22,12 @@ def run(ctx):
         "a UDP announce that is never answered does not end (the client retransmits for ever, there is no overall timeout), so it is outside "
         "'every announce that ends without a reply' and is not scripted in judged scenarios",
         "the tier order is learned from the trace (NewTier shuffles): the successor of a member is fixed by its first strict fail-over",
+        "tier-level concurrent histories: every linearised history of 2 (thorough: also 3) concurrent callers of the REAL tracker.Tier up to a "
+        "fixed depth, made deterministic by a rendezvous inside the scripted members; C16.tier.conc is the compare-and-swap pointer discipline "
+        "(advance by one when an announce that used the current member fails), judged step by step",
+        "UDP burst family: 2..32 announces with distinct info-hashes through ONE transport/socket, held by the tracker and answered back-to-back "
+        "(with duplicates, in other order), each reply with content derived from its info-hash; a second wave is answered one by one with "
+        "duplicates right behind each reply",
         "reply fuzz: fixed tables of malformed HTTP bodies / UDP datagram sequences plus seeded random mutations; 'read beyond the limit' is judged "
         "by the bytes the scripted server could push (limit + 12 MiB of kernel buffering); IPv6 literals in dictionary-model replies are counted, not judged",
     ]
@@ -29,7 +35,8 @@ def run(ctx):
     drv = ctx.build_go("c16")
     tp = ctx.path("c16.ndjson")
     args = ["-seed", str(ctx.seed), "-out", tp, "-root", ctx.path("drv", "x"), "-par", str(ctx.pick(14, 16)),
-            "-ntier", str(ctx.pick(24, 160)), "-nshare", str(ctx.pick(3, 9)), "-nsess", str(ctx.pick(0, 6)), "-nfuzz", str(ctx.pick(60, 1500))]
+            "-tcdepth", str(ctx.pick(7, 9)), "-tcdepth3", str(ctx.pick(0, 7)),
+            "-ntier", str(ctx.pick(27, 162)), "-nshare", str(ctx.pick(3, 9)), "-nsess", str(ctx.pick(0, 6)), "-nfuzz", str(ctx.pick(60, 1500))]
     # TLC as generator: every ok/fail answer pattern of length L over the announces of a tier (replayed for 2 and 3 members)
     pats, _ = ctx.tlc_gen("MC_AnnounceGen", ctx.pick("MC_AnnounceGen_5.cfg", "MC_AnnounceGen_8.cfg"))
     if len(pats) != ctx.pick(32, 256):
@@ -41,12 +48,13 @@ def run(ctx):
     join = base.start_driver(ctx, drv, args, ctx.pick(400, 1500))
     # 1. design level
     jobs = [("pass", "MC_Announce_tier2.cfg", {}),
-            ("asis", "MC_Announce_tier2_asis.cfg", {"expect_tag": "C16.tier.next"}),
+            ("asis", "MC_Announce_tier2_asis.cfg", {"expect_tag": ["C16.tier.next", "C16.tier.conc"]}),
+            ("asis", "MC_Announce_conc_asis.cfg", {"expect_tag": ["C16.tier.conc", "C16.tier.next", "C16.tier.sticky"]}),
             ("pass", "MC_Announce_udp.cfg", {}),
             ("asis", "MC_Announce_udp_asis.cfg", {"expect_live": True})]
     if not ctx.quick():
         jobs += [("pass", "MC_Announce_tier.cfg", {"timeout": 2400}), ("pass", "MC_Announce_udp_mid.cfg", {"timeout": 2400}),
-                 ("asis", "MC_Announce_tier_asis.cfg", {"expect_tag": "C16.tier.next"})]
+                 ("asis", "MC_Announce_tier_asis.cfg", {"expect_tag": ["C16.tier.next", "C16.tier.conc"]})]
     base.mc_all(ctx, jobs)
     results = join()
     base.drop_failed(ctx, results, max_frac=0.2)
@@ -72,6 +80,28 @@ def account(ctx, scs):
     for s in scs:
         anns = [d for _, d in s["lines"] if d["op"] == "ann" and d["ev"] != "stopped"]
         fz = [d for _, d in s["lines"] if d["op"] == "fz"]
+        if s["kind"] == "tierconc":
+            hist = []
+            for _, d in s["lines"] + [(0, {"op": "tnew"})]:
+                if d["op"] == "tnew":
+                    if hist:
+                        ctx.count_case(("tc",) + tuple(hist), True)
+                        running, ovf = {}, False
+                        for op, slot, x in hist[1:]:
+                            if op == "tl":
+                                running[slot] = x
+                            else:
+                                k = running.pop(slot, None)
+                                ovf = ovf or (not x and k in running.values())
+                        cls["tierconc_histories"] += 1
+                        cls["tierconc_with_overlapping_failures_on_one_member"] += ovf
+                    hist = [("new", 0, tuple(d.get("ks", [])))]
+                elif d["op"] == "tl":
+                    hist.append(("tl", d["slot"], d["k"]))
+                    ob["C16.tier.conc"] += 1
+                elif d["op"] == "tr":
+                    hist.append(("tr", d["slot"], d["ok"]))
+            continue
         if fz:
             for d in fz:
                 ctx.count_case(("fz", d["tp"], d["case"]), True)
@@ -79,6 +109,8 @@ def account(ctx, scs):
                 cls["fz_%s_%s" % (d["tp"], d["out"])] += 1
                 if d.get("ip6"):
                     cls["fz_ipv6_literal_passed"] += 1
+                if d["tp"] == "udpburst":
+                    ob["C16.reply.burst"] += 2 * d["burst"]
             continue
         key = (s["kind"], tuple((d["k"], d["ev"], d["res"]) for d in anns))
         fo = sum(1 for a, b in zip(anns, anns[1:]) if a["res"] != "ok")
@@ -100,6 +132,7 @@ def account(ctx, scs):
             ctx.sample({"scenario": s["name"], "kind": s["kind"], "pats": s["init"].get("meta", {}).get("pats"),
                         "announces": [(d["now"], d["k"], d["ev"], d["res"]) for _, d in s["lines"] if d["op"] == "ann"][:12]})
             break
-    if ob["C16.reply"] == 0 or ob["C16.tier.next"] == 0 or cls["kind=udpshare"] == 0 or cls["three_full_cycles_of_failures"] == 0:
+    if (ob["C16.reply"] == 0 or ob["C16.tier.next"] == 0 or cls["kind=udpshare"] == 0 or cls["three_full_cycles_of_failures"] == 0
+            or ob["C16.reply.burst"] == 0 or cls["tierconc_with_overlapping_failures_on_one_member"] == 0 or cls["kind=overlap"] == 0):
         return "vacuous run: %s %s" % (dict(ob), dict(cls))
     return None
